@@ -14,6 +14,7 @@ import (
 	"strconv"
 	"strings"
 
+	"github.com/shopspring/decimal"
 	"github.com/verily-src/fhirpath-go/fhirpath/zzverif/lib"
 )
 
@@ -64,11 +65,42 @@ func item(s string) lib.Item {
 		}
 		if len(num) <= 60 && !strings.ContainsAny(num, "eE") {
 			if d, err := lib.DecFromString(num); err == nil {
-				return lib.QtyItem(d, unit)
+				q := lib.QtyItem(d, unit)
+				// the unit as an ASCII word and the amount in thousandths, where both exist (what FPTemporal's rules take)
+				q["u"], q["th"] = "", 0
+				if th, ok := thousandths(num); ok && isWord(unit) {
+					q["u"], q["th"] = unit, th
+				}
+				return q
 			}
 		}
 	}
 	return none
+}
+
+func isWord(s string) bool {
+	if s == "" || len(s) > 16 {
+		return false
+	}
+	for _, c := range s {
+		if !(c >= 'a' && c <= 'z' || c >= 'A' && c <= 'Z') {
+			return false
+		}
+	}
+	return true
+}
+
+// thousandths returns num*1000 when that is a whole number of moderate size.
+func thousandths(num string) (int, bool) {
+	d, err := decimal.NewFromString(num)
+	if err != nil {
+		return 0, false
+	}
+	t := d.Mul(decimal.NewFromInt(1000))
+	if !t.IsInteger() || t.Abs().Cmp(decimal.NewFromInt(2000000000)) > 0 {
+		return 0, false
+	}
+	return int(t.IntPart()), true
 }
 
 func main() {
